@@ -39,6 +39,25 @@ CHECKS.update({
                 note="Un-ownable sources (hash seeds of fresh compiler processes, libtest's scheduler) are only sampled in the thorough tier and decide nothing."),
 })
 
+CHECKS.update({
+    "C09": dict(engine="E1 macro-inproc (inflect)", category="exploration", design="§6 C09",
+                technique="exhaustive enumeration of identifiers over a mixed alphabet up to a length bound x 8 rules x {field, variant}; differential against serde_derive's own case.rs executed in the same process",
+                text="Every identifier up to the length bound: the name ts-rs derives under each rename rule equals what serde_derive's own RenameRule code yields (serde-undefined inputs counted apart).",
+                note="Trusted: serde_derive's case.rs (locked version) is serde's wire naming; syn decides identifier-hood."),
+    "C10": dict(engine="E1 macro-inproc (equiv)", category="exploration", design="§6 C10",
+                technique="exhaustive enumeration of attribute placements/orders/list splits; differential comparison of real derive expansions under three feature configurations",
+                text="For every supported key at every position: serde and ts spellings expand identically, ts wins over serde in both orders, unsupported serde entries anywhere in a list are inert, and without serde-compat serde lists have no effect.",
+                note="Trusted: equal expansions imply equal bindings. Bounded: listed templates, 20 unsupported entries, lists of <=3 entries."),
+    "C15": dict(engine="E1 macro-inproc (docs)", category="exploration", design="§6 C15",
+                technique="exhaustive enumeration of doc-attribute lists x positions through the real parse_docs/derive; structural containment check of the emitted comment and expansion diff",
+                text="For every doc list up to the length bound at every position: one well-formed comment block that cannot end early and contains the text; the expansion differs from the doc-free one only in documentation.",
+                note="In-process part only so far; placement in exported/merged files is covered by C05's merge corpus (doc types) and will be extended."),
+    "C16": dict(engine="E1 macro-inproc (total)", category="exploration", design="§6 C16",
+                technique="exhaustive small-scope enumeration of items x attribute-option subsets executed in process; outcome compared with an independent validity table",
+                text="No derive input in the enumerated space panics; documented-incompatible or inapplicable combinations are rejected and valid ones accepted, per an independent table.",
+                note="rustc's verdict on accepted expansions is established by the compiled corpora of the E2 checks for the types they contain, not for all accepted items."),
+})
+
 NOT_YET = {
 }
 
